@@ -3,7 +3,7 @@
 set -e
 cd "$(dirname "$0")"
 export CARGO_NET_OFFLINE=true
-python3 tools/gen_harness.py harness/src/gen_r5.rs
+python3 tools/gen_harness.py harness/src
 python3 tools/gen_ctor.py harness/src/bin
 [ -f /repo/Cargo.lock ] && cp /repo/Cargo.lock harness/Cargo.lock && cp /repo/Cargo.lock harness_sched/Cargo.lock
 (cd coq && coq_makefile -f _CoqProject -o Makefile >/dev/null && timeout 3000 make -j16)
